@@ -646,4 +646,6 @@ def add_obligations(pack, ss, tier, pid='C03'):
                'hand-written j_numeric of a model or block appends to constant Jacobian names only (so position #idx of '
                'triplets.vjac[<variable name>] is the idx-th generated entry); no stock model defines j_numeric')
     items = [(model_j_update(pid),)] + [(c,) for c in jac_eq_var_name(pid)] + [(system_store_sparse_pattern(pid),), (model_store_sparse_pattern(pid),), (system_j_update(pid), None, replay_system_j_update), (j_islands(pid), None, replay_j_islands)] + [(c,) for c in dae_restore_sparse(pid) + dae_build_pattern(pid)]
+    from contracts import fn_sequence as Q
+    items += [(c,) for c in Q.jactriplet(pid)]
     run_contracts(pack, items)
